@@ -91,6 +91,11 @@ def _force_ops(group):
     return ops
 
 
+def _copies3(s):
+    s.trace_copies = 3       # recorded histories force up to three copies of a pair (the exhaustive part: two)
+    return s
+
+
 def c16(tier):
     F = (False, True)
     if tier == "quick":
@@ -103,8 +108,8 @@ def c16(tier):
                 S("ul2f", "ul", 2, ops=_force_ops("ul"), labels=(0, 1), forces=F, maxcopies=2, reps=2, trace=T(3, 100, 5)),
                 S("dm2f", "dm", 2, ops=_force_ops("dm"), mults=(1, 2), maxmult=3, forces=F, maxcopies=2, reps=3, trace=tr),
                 S("um2f", "um", 2, ops=_force_ops("um"), mults=(1, 2), maxmult=3, forces=F, maxcopies=2, reps=3, trace=tr),
-                S("dw2f", "dw", 2, ops=_force_ops("dw"), forces=F, maxcopies=2, reps=3, trace=tr),
-                S("uw2f", "uw", 2, ops=_force_ops("uw"), forces=F, maxcopies=2, reps=3, trace=tr)]
+                _copies3(S("dw2f", "dw", 2, ops=_force_ops("dw"), forces=F, maxcopies=2, reps=3, trace=tr)),
+                _copies3(S("uw2f", "uw", 2, ops=_force_ops("uw"), forces=F, maxcopies=2, reps=3, trace=tr))]
     tr = T(100, 200, 7, dense=(24, 40, 70))
     out = []
     for g in ("dn", "un", "dl", "ul", "dm", "um", "dw", "uw"):
